@@ -141,9 +141,10 @@ theorem output_of_comparison (L R : List INode) : ∀ (res : List Res) (st : MSt
     individual of either input is accounted for by exactly one output individual. -/
 theorem accounting_composed (Lp Rp : List Person) (L R : List INode)
     (hL : Lp.map (·.id) = L.map INode.id) (hR : Rp.map (·.id) = R.map INode.id)
-    (scoreT scoreF : Nat → Nat → Rat) (prefer minW : Rat) (arrival : List Job)
-    (hperm : arrival.Perm (jobs Lp Rp scoreT scoreF prefer))
-    (hids : IdsOK Lp Rp) (hp : PtrsOK Lp Rp) (hu : UniqueTargetsOK Lp Rp)
+    (scoreT scoreF : Nat → Nat → Rat) (prefer minW : Rat)
+    (ch : Person → Option Person) (s0 : Sent) (arrival : List Job)
+    (hperm : arrival.Perm (jobsFrom ch s0 Lp Rp scoreT scoreF prefer)) (hadm : Admissible Rp ch)
+    (hids : IdsOK Lp Rp) (hp : PtrsOK Lp Rp) (hd : CandidatesDisjoint Lp Rp)
     (st st' : MSt) (out : List (Res × INode))
     (h : mergeIndis L R (winners Lp Rp minW arrival) st = .ok out st') :
     out.map (·.1) = winners Lp Rp minW arrival ∧
@@ -151,10 +152,10 @@ theorem accounting_composed (Lp Rp : List Person) (L R : List INode)
     (∀ y ∈ R.map INode.id, rightCount y (out.map (·.1)) = 1) := by
   have hgood : ∀ c ∈ winners Lp Rp minW arrival, GoodRes L R c := by
     intro c hc
-    obtain ⟨h1, h2, h3⟩ := C11.no_empty_result Lp Rp scoreT scoreF prefer minW arrival hperm c hc
+    obtain ⟨h1, h2, h3⟩ := C11.no_empty_result Lp Rp scoreT scoreF prefer minW ch s0 arrival hperm hadm c hc
     exact ⟨h1, fun x hx => hL ▸ h2 x hx, fun y hy => hR ▸ h3 y hy⟩
   have hsrc := mergeIndis_srcs L R _ _ _ _ hgood h
-  obtain ⟨v1, v2⟩ := C11.valid_matching Lp Rp scoreT scoreF prefer minW arrival hperm hids hp hu
+  obtain ⟨v1, v2⟩ := C11.valid_matching Lp Rp scoreT scoreF prefer minW ch s0 arrival hperm hadm hids hp hd
   rw [hsrc]
   exact ⟨rfl, fun x hx => v1 x (hL ▸ hx), fun y hy => v2 y (hR ▸ hy)⟩
 
